@@ -1,3 +1,4 @@
 package scen
 
 func c11Enum(t Tier, ev *Evidence) []Violation { return nil }
+func c12Enum(t Tier, ev *Evidence) []Violation { return nil }
